@@ -19,6 +19,7 @@
 package c15
 
 import (
+	"os"
 	"bytes"
 	"encoding/binary"
 	"fmt"
@@ -36,6 +37,9 @@ import (
 func TestMain(m *testing.M) {
 	// the 2^32 address sweep allocates a few short strings per address on a tiny live heap; a larger GC
 	// target only reduces the number of collections (harness-side setting, no effect on what is checked)
+	if os.Getenv(coldHelperEnv) != "" {
+		coldHelperMain() // re-executed by concurrent-cold-start: never returns
+	}
 	runColdProbes() // before any other use of the packages in this process
 	debug.SetGCPercent(2000)
 	pbt.Main(m, "C15")
